@@ -31,6 +31,8 @@ const shielderID key.TargetID = 9000 // harness-only unit with ATK = 1 used to a
 
 type cbEval struct {
 	props map[key.TargetID]map[prop.Property]float64
+	// weaknesses granted by modifiers (implants): a unit is weak to the union of these and its own
+	weak map[key.TargetID][]model.DamageType
 }
 
 func (e *cbEval) EvalModifiers(target key.TargetID) *info.ModifierState {
@@ -39,10 +41,14 @@ func (e *cbEval) EvalModifiers(target key.TargetID) *info.ModifierState {
 	for k, v := range e.props[target] {
 		m[k] = v
 	}
+	wk := info.NewWeaknessMap()
+	for _, d := range e.weak[target] {
+		wk[d] = true
+	}
 	return &info.ModifierState{
 		Props:     m,
 		DebuffRES: info.NewDebuffRESMap(),
-		Weakness:  info.NewWeaknessMap(),
+		Weakness:  wk,
 		Counts:    make(map[model.StatusType]int),
 		Flags:     nil,
 		Modifiers: nil,
@@ -183,7 +189,16 @@ func newCbWorld(units []term.T, limbo []term.T, draws []term.T) *cbWorld {
 		}
 		weak := info.NewWeaknessMap()
 		for _, d := range term.List(a[8]) {
-			weak[model.DamageType(term.Int(d))] = true
+			// odd damage types are the unit's own weaknesses, even ones are granted by a modifier (the
+			// unit is weak to the union; only the snapshot's merged view may decide)
+			if dt := model.DamageType(term.Int(d)); dt%2 == 1 {
+				weak[dt] = true
+			} else {
+				if w.eval.weak == nil {
+					w.eval.weak = map[key.TargetID][]model.DamageType{}
+				}
+				w.eval.weak[id] = append(w.eval.weak[id], dt)
+			}
 		}
 		err := w.attr.AddTarget(id, info.Attributes{
 			Level:     int(term.Int(a[2])),
